@@ -21,7 +21,7 @@ build() { # $1 = variant
 }
 
 fuzz_campaign() { # $1 = property, $2 = seed ; returns 0 ok / 1 violation / 2 inconclusive
-  local id=$1 seed=$2 F=$H/fuzz W runs=${QXV_FUZZ_RUNS:-400000} inst=${QXV_FUZZ_INSTANCES:-8}
+  local id=$1 seed=$2 F=$H/fuzz W runs=${QXV_FUZZ_RUNS:-1500000} inst=${QXV_FUZZ_INSTANCES:-8}
   W=$(mktemp -d "$F/campaign-$id-XXXXXX")
   ( cd "$F" && cargo +nightly fuzz build --fuzz-dir . props ) >"$H/target-fuzz.log" 2>&1 || { echo "INCONCLUSIVE: fuzz target does not build (see $H/target-fuzz.log)"; rm -rf "$W"; return 2; }
   local bin=$F/target/x86_64-unknown-linux-gnu/release/props
@@ -30,7 +30,7 @@ fuzz_campaign() { # $1 = property, $2 = seed ; returns 0 ok / 1 violation / 2 in
   local k pids=""
   for k in $(seq 1 $inst); do
     mkdir -p "$W/corpus$k" "$W/art$k"; cp "$W/seeds/"* "$W/corpus$k/" 2>/dev/null
-    ( QXV_FUZZ_PROP=$id "$bin" "$W/corpus$k" -runs=$runs -seed=$((seed * 100 + k)) -max_total_time=${QXV_FUZZ_MAXTIME:-600} -len_control=0 -max_len=192 -timeout=20 -rss_limit_mb=4096 -artifact_prefix="$W/art$k/" >"$W/log$k" 2>&1 ) &
+    ( QXV_FUZZ_PROP=$id "$bin" "$W/corpus$k" -runs=$runs -seed=$((seed * 100 + k)) -max_total_time=${QXV_FUZZ_MAXTIME:-1500} -len_control=0 -max_len=192 -timeout=20 -rss_limit_mb=4096 -artifact_prefix="$W/art$k/" >"$W/log$k" 2>&1 ) &
     pids="$pids $!"
   done
   wait $pids
